@@ -59,6 +59,19 @@ class Backend:
 
     # -- corpus -------------------------------------------------------------
     def gen_code(self, text, index):
+        if self.backend == "python" and getattr(self, "via_cli", False):
+            # through the command-line tool, with a declaration filter that matches nothing: the options given must not
+            # change the code of the declarations that are kept (C17 / C11 quantify over configurations)
+            import subprocess, tempfile
+            with tempfile.TemporaryDirectory(prefix="pdlc-cli-") as td:
+                fp = os.path.join(td, "in.pdl")
+                open(fp, "w").write(text)
+                try:
+                    pr = subprocess.run([C.PDLC, "--output-format", "python", "--exclude-declaration", "Zz9NoSuchDeclaration", fp],
+                                        capture_output=True, text=True, timeout=60, env=C.ENV)
+                except subprocess.TimeoutExpired:
+                    return (None, {"status": "timeout"})
+            return ("python", pr.stdout) if pr.returncode == 0 else (None, {"status": "cli-error", "stderr": pr.stderr[-300:]})
         if self.backend == "python":
             g = self.drv.ask({"op": "gen", "backend": "python", "text": text})
             return ("python", g["text"]) if g and g.get("status") == "ok" else (None, g or self.drv.last_death)
@@ -97,6 +110,11 @@ class Backend:
         if stratify:
             for text, g in GD.stratified(self.rng, self.opts):
                 self.add_text(text, g, origin="stratified")
+            if self.backend in ("python", "cxx"):
+                # groups and elements wider than 32 bits (own PRNG stream; the Java class leaves them out: KF-C19-int-chunk)
+                wrng = random.Random(self.seed * 4099 + 5)
+                for text in GD.wide(wrng, 2 if self.tier == "quick" else 12):
+                    self.add_text(text, origin="wide")
         tries = 0
         while len(self.descs) < self.n_desc + len(self.extra_texts) and tries < 4 * self.n_desc:
             tries += 1
